@@ -143,14 +143,17 @@ package paymentsdb
 //@   props C16
 //@   bounds-safe
 //@   loop * havoc
-//@   site call SettleAttempt: assert ret(updatable) == nil
+//@   // the resolution tables are keyed by the attempt index alone: the attempt is first shown to belong to THIS payment (finding F22)
+//@   site call SettleAttempt: assert ret(updatable) == nil && ret(assertAttemptOfPayment) == nil
+//@   site call assertAttemptOfPayment: assert arg(3) == attemptID && arg(2) == ret(GetPayment).ID
 //@   site call updatable: assert arg(ps) == retn(computePaymentStatusFromDB, 0) && retn(computePaymentStatusFromDB, 1) == nil
 //@
 //@ func (s *SQLStore) FailAttempt$1
 //@   props C16
 //@   bounds-safe
 //@   loop * havoc
-//@   site call FailAttempt: assert ret(updatable) == nil
+//@   site call FailAttempt: assert ret(updatable) == nil && ret(assertAttemptOfPayment) == nil
+//@   site call assertAttemptOfPayment: assert arg(3) == attemptID && arg(2) == ret(GetPayment).ID
 //@   site call updatable: assert arg(ps) == retn(computePaymentStatusFromDB, 0) && retn(computePaymentStatusFromDB, 1) == nil
 //@
 //@ func computePaymentStatusFromResolutions
@@ -264,3 +267,10 @@ package paymentsdb
 //@   loop * havoc
 //@   site store Hop.AmtToForward: assert value == wrap(hop.AmtToForward, 64)
 //@   site store Hop.OutgoingTimeLock: assert value == wrap(hop.OutgoingTimeLock, 32)
+//@
+//@ func assertAttemptOfPayment
+//@   props C16
+//@   bounds-safe
+//@   loop * havoc
+//@   site call FetchHtlcAttemptsForPayments: assert len(arg(2)) == 1 && arg(2)[0] == paymentID
+//@   site return nil: assert retn(FetchHtlcAttemptsForPayments, 1) == nil && attempts[rangeindex + 1].AttemptIndex == swrap(attemptID, 64)
